@@ -446,7 +446,12 @@ def input_forms(case, live, root, nodes, base):
         run_form("NewType", lambda: exec(f"FormNT = typing.NewType('FormNT', {text})", mod.__dict__) or mod.__dict__["FormNT"])
         run_form("value-alias", lambda: exec(f"FormAL = compat.TypeAliasType('FormAL', {text})", mod.__dict__) or mod.__dict__["FormAL"])
         run_form("ForwardRef", lambda: refs.forwardref(text, module=G.MOD_A))
-        if case["root"][0] != "cls" and not case["classes"]:
+        import re
+        # a bare string is resolved by refs' own convention: a LEADING dotted name is the module and the rest
+        # is looked up inside it; `typing.Sequence[uuid.UUID]` is therefore not a string the code claims to
+        # resolve (uuid is not a name of module typing) -- resolved in favour of the code, not generated
+        leading_module = re.match(r"^[A-Za-z_]\w*\.", text) and not re.fullmatch(r"[\w.]+", text)
+        if case["root"][0] != "cls" and not case["classes"] and not leading_module:
             G.ensure_enum_module()
             globals()[G.ENUM_MOD] = __import__("sys").modules[G.ENUM_MOD]
             run_form("string", lambda: text)   # a bare string is resolved from the caller's module (this one)
